@@ -504,3 +504,29 @@ Theorem C05_holder_rules_are_source :
          (CommitmentPolicyGenProofs.abs_info gi)).
 Proof. exact CommitmentEntryGenProofs.gen_holder_is_model. Qed.
 Print Assumptions C05_holder_rules_are_source.
+
+(** The channel-size rule is the source's.  SimpleValidator::validate_channel_value (whole body;
+    `impl Validator for SimpleValidator`, policy/simple_validator.rs), which channel.rs calls before
+    every counterparty-commitment signature with the policy in force at that moment, is translated on
+    every run and equals the model's [validate_channel_value] (policy-funding-max) for every policy,
+    setup, filter and both build profiles; under a filter that leaves the tag alone its Ok means
+    channel_value_sat <= max_channel_size_sat. *)
+From VLS Require Proofs.ChannelValueGenProofs.
+Theorem C05_channel_value_rule_is_source :
+  forall (prof : profile) (swarn : string -> bool) (gp : CommitmentPolicyGen.SimplePolicy)
+         (gs : CommitmentPolicyGen.ChannelSetup),
+    CommitmentPolicyGen.gen_validate_channel_value prof swarn gp gs =
+    CommitmentPolicyGenProofs.of_res
+      (validate_channel_value (CommitmentPolicyGenProofs.tag_filter swarn)
+         (CommitmentPolicyGenProofs.abs_policy gp) (CommitmentPolicyGenProofs.abs_setup gs)).
+Proof. exact ChannelValueGenProofs.gen_channel_value_is_model. Qed.
+Print Assumptions C05_channel_value_rule_is_source.
+
+Theorem C05_source_channel_value_ok_implies_bound :
+  forall (prof : profile) (swarn : string -> bool) (gp : CommitmentPolicyGen.SimplePolicy)
+         (gs : CommitmentPolicyGen.ChannelSetup),
+    swarn "policy-funding-max"%string = false ->
+    CommitmentPolicyGen.gen_validate_channel_value prof swarn gp gs = Val (Rust.OkR tt) ->
+    CommitmentPolicyGen.ChannelSetup_channel_value_sat gs <= CommitmentPolicyGen.SimplePolicy_max_channel_size_sat gp.
+Proof. exact ChannelValueGenProofs.gen_channel_value_ok_bound. Qed.
+Print Assumptions C05_source_channel_value_ok_implies_bound.
